@@ -486,9 +486,6 @@ func (sp *c06Spell) expr(a *c06A, tags map[string]bool) *c06N {
 		inner := e.Sub[0]
 		if len(inner.Sub) == 1 && len(inner.Sub[0].Sub) == 1 && inner.Sub[0].Sub[0].K != "g" && !c06PlainTerm(inner.Sub[0].Sub[0]) {
 			e.pad = !sp.Tight
-			if sp.Tight {
-				tags["tight-group"] = true
-			}
 		}
 	case a.KW != "":
 		e = &c06N{K: "w", P: sp.prefix(a.Field), KW: a.KW}
@@ -502,19 +499,11 @@ func (sp *c06Spell) expr(a *c06A, tags map[string]bool) *c06N {
 	}
 	directive := a.Field == "case" || a.Field == "type"
 	if !directive && sp.Parens > 0 && sp.rng.Intn(100) < sp.Parens {
-		pad := !sp.Tight
-		if sp.Tight && !(c06PlainTerm(e) || e.K == "g") {
-			tags["tight-group"] = true
-		}
-		e = c06Wrap(e, false, pad)
+		e = c06Wrap(e, false, !sp.Tight)
 	}
 	if a.Neg {
 		if sp.NegGroup && e.K != "g" {
-			pad := !sp.Tight
-			if sp.Tight && !c06PlainTerm(e) {
-				tags["tight-group"] = true
-			}
-			e = c06Wrap(e, true, pad)
+			e = c06Wrap(e, true, !sp.Tight)
 		} else {
 			e.Neg = true
 		}
@@ -535,9 +524,10 @@ func (sp *c06Spell) query(a *c06A, tags map[string]bool) *c06N {
 }
 
 type c06Tok struct {
-	S    string
-	O, C bool
-	pad  bool
+	S     string
+	O, C  bool
+	pad   bool
+	plain bool // a search term without "-"
 }
 
 func (t *c06Text) yield() string {
@@ -583,7 +573,7 @@ func (n *c06N) toks() []c06Tok {
 		r = append(r, n.Sub[0].toks()...)
 		return append(r, c06Tok{S: ")", C: true, pad: n.pad})
 	case "t":
-		return []c06Tok{{S: dash + n.Val.yield()}}
+		return []c06Tok{{S: dash + n.Val.yield(), plain: !n.Neg}}
 	case "f":
 		s := dash + n.P
 		if n.MF != "" {
@@ -596,7 +586,43 @@ func (n *c06N) toks() []c06Tok {
 	panic("node kind " + n.K)
 }
 
-func (sp *c06Spell) assemble(toks []c06Tok) (string, []int) {
+// tight reports the class "tight-group": parentheses with no blank anywhere between them around
+// anything but search terms, e.g. (f:x), -(f:x), (-x), (-(x)).
+func (sp *c06Spell) assemble(toks []c06Tok) (str string, gaps []int, tight bool) {
+	defer func() {
+		for k := range toks {
+			if !toks[k].O {
+				continue
+			}
+			depth, blank, other := 0, false, false
+			for m := k; m < len(toks); m++ {
+				if m > k && gaps[m] > 0 {
+					blank = true
+				}
+				if toks[m].O {
+					depth++
+					if m > k && strings.HasPrefix(toks[m].S, "-") {
+						other = true
+					}
+				} else if toks[m].C {
+					depth--
+					if depth == 0 {
+						break
+					}
+				} else if !toks[m].plain {
+					other = true
+				}
+			}
+			if !blank && other {
+				tight = true
+			}
+		}
+	}()
+	str, gaps = sp.assemble0(toks)
+	return
+}
+
+func (sp *c06Spell) assemble0(toks []c06Tok) (string, []int) {
 	gaps := make([]int, len(toks)+1)
 	extra := func() int {
 		if sp.Blanks {
@@ -730,7 +756,10 @@ func (r *c06Run) emit(fam string, a *c06A, spells []c06Spell) {
 	for si, sp := range spells {
 		tags := map[string]bool{}
 		d := sp.query(a, tags)
-		str, gaps := sp.assemble(d.toks())
+		str, gaps, tight := sp.assemble(d.toks())
+		if tight {
+			tags["tight-group"] = true
+		}
 		if seen[str] && si > 0 {
 			continue
 		}
@@ -866,7 +895,7 @@ func TestVerif_C06_QueryLang(t *testing.T) {
 			if i%3 == 2 {
 				l.Neg = true
 			}
-			run.emit("field", c06One(l), c06Spellings(rng, 5))
+			run.emit("field", c06One(l), c06Spellings(rng, verifkit.Pick(3, 6)))
 		}
 	}
 	for _, f := range []string{"archived", "fork", "public"} {
@@ -875,9 +904,10 @@ func TestVerif_C06_QueryLang(t *testing.T) {
 			run.emit("field", c06One(c06Neg(c06KW(f, kw)), c06Leaf("text", c06Mat{Src: "foo"})), c06Spellings(rng, 3))
 		}
 	}
+	caseSrc, caseFld := []string{"Foo", "fo+", "Fo+", "foo", "FOO", "[fF]oo bar"}, []string{"text", "file", "sym", "content"}
 	for _, kw := range c06Keywords["case"] {
-		for _, src := range []string{"foo", "Foo", "FOO", "fo+", "Fo+", "[fF]oo bar"} {
-			for _, f := range []string{"text", "content", "file", "sym"} {
+		for _, src := range caseSrc[:verifkit.Pick(3, 6)] {
+			for _, f := range caseFld[:verifkit.Pick(3, 4)] {
 				run.emit("field", c06One(c06KW("case", kw), c06Leaf(f, c06Mat{Src: src})), c06Spellings(rng, 3))
 			}
 		}
@@ -906,7 +936,7 @@ func TestVerif_C06_QueryLang(t *testing.T) {
 	}
 
 	// (3) seeded random deeper derivations
-	nrand := verifkit.EnvInt("VERIF_RANDOM", verifkit.Pick(60, 1500))
+	nrand := verifkit.EnvInt("VERIF_RANDOM", verifkit.Pick(40, 1500))
 	fr := &c06Filler{rng: verifkit.Rng(6003)}
 	for k := 0; k < nrand; k++ {
 		budget := 4 + fr.rng.Intn(8)
@@ -919,9 +949,11 @@ func TestVerif_C06_QueryLang(t *testing.T) {
 		l := c06Leaf(s.Field, s.Mat)
 		sp := c06Spellings(rs, 3)
 		run.emit("special", c06One(l), sp)
-		run.emit("special", c06One(c06Neg(l), c06Leaf("file", c06Mat{Src: "txt"})), sp)
-		run.emit("special", c06Q(c06C(l), c06C(c06Leaf("lang", c06Mat{Src: "c"}))), sp)
 		run.emit("special", c06One(c06KW("case", "auto"), c06G(c06Q(c06C(l), c06C(c06Leaf("text", c06Mat{Src: "nosuch"}))))), sp)
+		if verifkit.Thorough() {
+			run.emit("special", c06One(c06Neg(l), c06Leaf("file", c06Mat{Src: "txt"})), sp)
+			run.emit("special", c06Q(c06C(l), c06C(c06Leaf("lang", c06Mat{Src: "c"}))), sp)
+		}
 	}
 	tight := []c06Spell{{Alias: 0, Quote: 0, Tight: true, rng: rs}, {Alias: 1, Quote: 1, Tight: true, NegGroup: true, rng: rs}}
 	for _, a := range []*c06A{
